@@ -346,6 +346,8 @@ fn check_project_in(ctx: &Ctx, p: &GenProject, t: &mut Tape, rec: &Rec, dir: &Pa
         let mut o = base.clone();
         o.level = Some(level.into());
         o.sarif = Some(sarif_path.clone());
+        // the path already holds a longer document of an earlier run
+        o.stale_sarif = true;
         o.verbose = t.chance(128);
         let b = run_bin(ctx, &o)?;
         if crashed(&b.out) {
